@@ -27,6 +27,12 @@ def run(ctx):
         r_ = random.Random(str(sp['seed']) + '/skip')
         sp['opts']['skip_nodes'] = [r_.choice(sorted(set(nn for a in sp['assets'] for nn in a['nodes'])))]
     specs += skp
+    # units with binary variables: solved as MIP, the window fixed, re-solved relaxed (make_soft_problem) - pinned flags stay pinned
+    softp = gen.gen_many_plants(ctx.seed, n // 4, dict(CFG, freqs=['h'], units=['h'], tzs=[None], T=(5, 9), p_unaligned_end=0.0, p_profile=0.0, p_coarse=0.0, p_periodic=0.0, p_window=0.0), 'c15soft_')
+    softp += gen.gen_many(ctx.seed, n // 4, dict(CFG, p_coarse=0.0, p_periodic=0.0, p_no_simult=0.9, p_full_exec=0.9, T=(4, 7), kinds={'Storage': 3, 'OrderBook': 3, 'SimpleContract': 2}), 'c15softm_')
+    for sp in softp:
+        sp['opts']['fix'] = {'mode': 'prefix', 'k': int(sp['id'].split('_')[-1]) % 4 + 1, 'soft': True}
+    specs += softp
     for i, sp in enumerate(specs):
         rng = random.Random(str(sp['seed']) + '/fix')
         if 'fix' not in sp['opts']:
@@ -63,7 +69,8 @@ def run(ctx):
         if o.get('solve2') != 'optimal':
             bad['re-optimisation with unchanged prices'] = o.get('solve2')
         else:
-            if abs(o['value2'] - o['value']) > 1e-6 * (1 + abs(o['value'])):
+            # (a relaxed re-solve may find a better value outside the window: only the pinned part is compared then)
+            if not sp['opts']['fix'].get('soft') and abs(o['value2'] - o['value']) > 1e-6 * (1 + abs(o['value'])):
                 bad['optimal value changed with unchanged prices'] = [o['value'], o['value2']]
             off = [[j, x[j], o['x2'][j]] for j in pinned if abs(o['x2'][j] - x[j]) > 1e-6 * scale]
             if off:
